@@ -176,6 +176,7 @@ func (c *MapCodec) Read(data []byte, ptr unsafe.Pointer, wt plenccore.WireType) 
 	// We also save some memory & time if we cache them in some pools
 	k := c.kPool.Get().(unsafe.Pointer)
 	defer c.kPool.Put(k)
+	verifYield("map-key-scratch")
 	offset := int(n)
 	for count > 0 {
 		// Each entry starts with a length
@@ -396,6 +397,7 @@ func (c ProtoMapCodec) Read(data []byte, ptr unsafe.Pointer, wt plenccore.WireTy
 	// We also save some memory & time if we cache them in some pools
 	k := c.kPool.Get().(unsafe.Pointer)
 	defer c.kPool.Put(k)
+	verifYield("map-key-scratch")
 	return c.readMapEntry(mp, k, data)
 }
 
